@@ -33,8 +33,17 @@ def module_level_mutables(tree):
     return out
 
 
+_LOCALS = {}
+
+
 def local_names(fn):
-    """Names that are local to the function (parameters and assigned names not declared global)."""
+    """Names that are local to the function (parameters and assigned names not declared global); memoised per node."""
+    if id(fn) not in _LOCALS:
+        _LOCALS[id(fn)] = _local_names(fn)
+    return _LOCALS[id(fn)]
+
+
+def _local_names(fn):
     out = {a.arg for a in fn.args.args + fn.args.kwonlyargs}
     if fn.args.vararg:
         out.add(fn.args.vararg.arg)
@@ -52,7 +61,12 @@ def local_names(fn):
     return out - glob, glob
 
 
+PARAM_SETS = {}     # id(FunctionDef) -> set of parameter names that receive set-kinded arguments at some call site
+
+
 def set_kinded(node, fn, module_sets, depth=0):
+    if isinstance(node, ast.Name) and fn is not None and node.id in PARAM_SETS.get(id(fn), ()):
+        return True
     if isinstance(node, (ast.Set, ast.SetComp)):
         return True
     if isinstance(node, ast.Call) and dotted(node.func) in ('set', 'frozenset'):
